@@ -217,4 +217,4 @@ func executorCalls(c *Ctx) []execCall {
 
 // ResetCaches drops per-program memoisation (used by tools that analyse many
 // variants in one process).
-func ResetCaches() { refWriteCache = nil }
+func ResetCaches() { refWriteCache = nil; errDiscCache = nil }
